@@ -12,13 +12,37 @@ Public API (keep it small):
     make_batch(env_name, cfg, B, seed, double=False) -> (env, instance_td, reset_td)
                              generator-drawn instance (torch seeded with `seed`), reset on a clone; `double` casts
                              every floating tensor of both to float64
-    build_policy(policy_key, env_name, env=None, seed=0, spread=1.5, embed_dim=32, double=False, norm=None)
+    build_policy(policy_key, env_name, env=None, seed=0, spread=1.5, embed_dim=32, double=False, norm=None, opts=None)
                              -> nn.Module in eval() mode, dropout 0, parameters initialised under
                              torch.manual_seed(seed) and multiplied by `spread` (trainable tensors with dim >= 2
                              only: weight matrices, not biases / norm gains), cached per process.
                              `norm` overrides the normalisation ("batch" | "instance" | "layer") where the policy has one.
     expand_starts(td, k)     -> td repeated k times along the batch, start-major (row s*B + b), harness-own code
     has_batchnorm(policy)    -> True if any BatchNorm module is inside (train mode then couples the rows of a batch)
+    env_cfgs(envn, n, tier)  -> Hypothesis strategy of configs of policy size n whose SIZE-NEUTRAL options are drawn from
+                             vf.envs.SPECS[envn].cfg(tier) (WIDE_KEYS: capacities, vehicle_capacity, CVRPTW scale /
+                             max_time, SVRP tech_costs, OP prize_type / max_length, PDP force_start, mTSP agents / cost
+                             type, MTVRP preset / speed / scale_demand / backhaul_ratio / distance_limit, job-shop
+                             machines / operations / processing times / mask_no_ops, MDCPDP modes)
+    inst_sources(envn, cfg, B) -> strategy of {"src": "gen"} | {"src": "lat"|"flt"|"tgt", "lat": hand-built rows}
+    env_shapes(envn, cfg)    -> strategy of None | config overrides for the ENV OBJECT only (vf.envs.ENV_SHAPE_FREE: env
+                             built for another size than the instances it is given)
+    make_batch(..., src="gen", lat=None, env_shape=None, env_via="object")
+                             env_via "none" | "name": the caller hands env=None / the env name to the policy, which then
+                             builds rl4co.envs.get_env(name) itself; make_batch returns the harness' own default-built
+                             env of that name for the reference / oracles (default_env)
+    policy_opts(key)         -> strategy of constructor switches (mask_inner, linear_bias_decoder, out_bias_pointer_attn,
+                             sdpa variants incl. the library's own simple scaled-dot-product attention, check_nan,
+                             feedforward_hidden, constructor temperature / tanh_clipping) accepted by
+                             build_policy(..., opts=...) for OPT_KEYS (am, am_pomo, symnco); mdam: {"num_paths": 2|3};
+                             ptrnet: {"ptr_tanh", "ptr_mask_inner"}
+    setup_dims(key, envn, n, base_cfg, B, tier) -> strategy of the optional setup dimensions shared by C11-C14 (ecfg, src /
+                             lat, env_shape, env_via, opts); resolve_setup(case, base_cfg) -> (cfg, make_batch kwargs);
+                             setup_events(ctx, case, envn, cfg) -> class counters
+    StartFn(offset, first)   a select_start_nodes_fn(td, env, num_starts) with known feasible starts (records its calls)
+    FAMILY / family(key)     zoo variants (polynet_matnet, matnet_ctx, l2d_stepwise, mvmoe_k1 / mvmoe_kall / mvmoe_enc) share
+                             the special rules of their family in the checks; `nar` = NonAutoregressivePolicy on the harness
+                             stub encoder StubHeatmapEncoder
 
 Spread init (DESIGN §2.4): freshly initialised policies emit nearly uniform distributions (exact ties); x1.25..2.5 on
 the weight matrices gives mostly decisive (top-2 gap > 1e-4) and non-saturated steps; measured by C11 (decisive
@@ -47,7 +71,23 @@ ZOO = [
     # multi-depot pickup-delivery (AM falls back to the static dynamic-embedding, logged) and decap placement on the
     # synthetic PDN data of vf/eda.py (MDPP needs chips >= 8x8)
     ("am", "mdcpdp"), ("am", "dpp"), ("am", "mdpp"),
+    # constructible variants that nothing else builds (audit item 38): PolyNet on a MatNet encoder (atsp), L2D with
+    # stepwise encoding (no encoder, features re-extracted per step), MoE configurations where an expert may receive no
+    # row (k=1), every expert every row (k == num_experts), MoE in the encoder only, and the non-autoregressive
+    # template policy on a stub heat-map encoder (NonAutoregressiveDecoder: logits = heat-map row of the current node)
+    ("polynet_matnet", "atsp"), ("l2d_stepwise", "jssp"), ("l2d_stepwise", "fjsp"),
+    ("mvmoe_k1", "mtvrp"), ("mvmoe_kall", "mtvrp"), ("mvmoe_enc", "mtvrp"), ("nar", "tsp"),
+    ("matnet_ctx", "atsp"),  # MatNetPolicy(use_graph_context=True, bias=True)
 ]
+# zoo key -> the key whose special rules it shares in the checks (float64 support, start-index conditioning, ...)
+FAMILY = {"polynet_matnet": "polynet", "l2d_stepwise": "l2d", "mvmoe_k1": "mvmoe", "mvmoe_kall": "mvmoe",
+          "mvmoe_enc": "mvmoe", "matnet_ctx": "matnet"}
+
+
+def family(key):
+    return FAMILY.get(key, key)
+
+
 # Policies with their OWN decoding loop (no DecodingStrategy, no evaluate path): dedicated sub-checks in C11 / C14.
 #   matnet_ffsp  rl4co.models.zoo.matnet.policy.MultiStageFFSPPolicy on FFSPEnv(flatten_stages=False):
 #                forward(td, env, phase, num_starts) -> reward, summed log_likelihood, actions
@@ -84,7 +124,12 @@ INFO = {
     # own loops (OWN_LOOP): instance norm (MatNet encoders) / batch norm (MDAM encoder); hard-coded float32 buffers
     "matnet_ffsp": dict(batchnorm=False, constructive=False, multistart=False),
     "mdam": dict(batchnorm=True, constructive=False, multistart=False),
+    # NonAutoregressiveDecoder cannot decode a multisample request (the first step's logits keep the un-expanded batch:
+    # IndexError on the pinned tree): greedy / sampling / multistart / beam / evaluate only
+    "nar": dict(batchnorm=False, constructive=True, multistart=True, no_multisample=True),
 }
+for _k, _f in FAMILY.items():
+    INFO[_k] = dict(INFO[_f])
 POLYNET_K = 3
 
 
@@ -136,6 +181,223 @@ def small_cfg(env_name, n):
     raise KeyError(env_name)
 
 
+# size-neutral options of vf.envs.SPECS[env].cfg(tier): drawn for the env under a policy (audit item 3); every other key
+# of the config (sizes) stays what small_cfg fixes
+WIDE_KEYS = {
+    "atsp": ("tmat",),
+    "cvrp": ("capacity", "vc"), "sdvrp": ("capacity", "vc"),
+    "cvrptw": ("capacity", "scale", "max_time", "vc"),
+    "svrp": ("tech_costs",),
+    "op": ("prize_type", "max_length"),
+    "pdp": ("force_start",),
+    "mtvrp": ("variant", "speed", "scale_demand", "backhaul_ratio", "distance_limit"),
+    "mdcpdp": ("depots", "dist_mode", "reward_mode", "problem_mode", "depot_mode", "max_cap", "lw"),
+    # job shops: jobs stay small_cfg's; machines / operations per job / processing times / eligibility / no-op masking drawn
+    "fjsp": ("mas", "min_ops", "max_ops", "max_pt", "max_elig", "same_mean", "mask_no_ops", "stepwise", "check_mask"),
+    "jssp": ("mas", "min_ops", "max_ops", "one2one", "max_pt", "mask_no_ops", "stepwise", "check_mask"),
+}
+
+
+def env_cfgs(envn, n, tier="quick"):
+    """Strategy of configs for SPECS[envn] at policy size n: small_cfg(envn, n) with the size-neutral keys (WIDE_KEYS)
+    replaced by a draw of SPECS[envn].cfg(tier).  mTSP: agents range / cost type drawn here (the spec ties them to its
+    own n).  Envs without such keys (tsp, pctsp, spctsp, smtwtp, dpp, mdpp, ffsp) get small_cfg."""
+    import hypothesis.strategies as st
+    base = small_cfg(envn, n)
+    if envn == "mtsp":
+        m = base["n"] - 1
+
+        def mk(t):
+            lo = min(t[0], m)
+            return dict(base, min_agents=lo, max_agents=min(max(lo, lo + t[1]), m), cost_type=t[2])
+        return st.tuples(st.integers(1, 4), st.integers(0, 3), st.sampled_from(["minmax", "minmax", "sum"])).map(mk)
+    keys = WIDE_KEYS.get(envn)
+    if not keys:
+        return st.just(base)
+
+    def overlay(full):
+        cfg = dict(base)
+        for k_ in keys:
+            if k_ in full:  # (keys a spec may or may not draw yet: stepwise_reward / check_mask of the job shops)
+                cfg[k_] = full[k_]
+        if envn in ("fjsp", "jssp"):
+            # toy policies: at most 3 machines / 3 operations per job (episode length)
+            cfg["mas"] = min(int(cfg["mas"]), 3)
+            cfg["max_ops"] = min(int(cfg["max_ops"]), 3)
+            cfg["min_ops"] = min(int(cfg["min_ops"]), cfg["max_ops"])
+            if envn == "jssp" and cfg.get("one2one"):
+                cfg["min_ops"] = cfg["max_ops"] = cfg["mas"]  # documented precondition of the one-to-one machine map
+            if envn == "fjsp":
+                cfg["max_elig"] = max(1, min(int(cfg["max_elig"]), int(cfg["mas"])))
+        return cfg
+    return SPECS[envn].cfg(tier).map(overlay)
+
+
+def inst_sources(envn, cfg, B):
+    """Strategy of instance sources for a policy run: generator-drawn (3/4) or one of the hand-built sources the spec
+    offers (lattice / off-lattice floats / tight time windows), as {"src":.., "lat": rows}."""
+    import hypothesis.strategies as st
+    spec = SPECS[envn]
+    hand = [s_ for s_ in spec.sources if s_ != "gen"]
+    if envn in ("dpp", "mdpp", "ffsp", "mdcpdp") or not hand:
+        return st.just({"src": "gen"})
+
+    @st.composite
+    def pick(draw):
+        if draw(st.integers(0, 3)) != 0:
+            return {"src": "gen"}
+        src = draw(st.sampled_from(hand))
+        if src == "tgt":
+            return {"src": src, "lat": draw(spec.tight(cfg, B))}
+        return {"src": src, "lat": draw(spec.lattice(cfg, B, exact=(src == "lat")))}
+    return pick()
+
+
+def env_shapes(envn, cfg):
+    """Strategy: None (5/6) or overrides of the size keys of vf.envs.ENV_SHAPE_FREE[envn] for the env OBJECT (an env
+    built for another size than the instances it is handed; same rule as vf.envs.episode_cases)."""
+    import hypothesis.strategies as st
+    from .envs import ENV_SHAPE_FREE
+    if envn not in ENV_SHAPE_FREE:
+        return st.none()
+
+    @st.composite
+    def pick(draw):
+        ov = {}
+        for k_ in ENV_SHAPE_FREE[envn]:
+            lo, hi = (1, 4) if k_ in ("jobs", "mas") else (2, 12)
+            ov[k_] = draw(st.integers(lo, hi))
+        if all(ov[k_] == cfg[k_] for k_ in ov):
+            return None
+        if envn == "fjsp":
+            ov["max_elig"] = min(cfg["max_elig"], ov["mas"])
+        return ov
+    return pick()
+
+
+# envs whose default-constructed object (rl4co.envs.get_env(name), generator for 20 nodes) decodes instances of any size
+# exactly like an env built for them, PROVIDED the config keeps every env-constructor / generator-attribute option the
+# env reads at reset / step / reward time at its default (probed on the pinned tree): policy(td, env=None | name)
+# (MTVRPEnv() cannot be default-constructed on the pinned tree - "Cannot use subsample if variant_preset is not
+#  specified" - and the default FJSPEnv / PCTSP / PDP / mTSP objects only take instances of their own default shape)
+ENV_BY_NAME = {
+    "tsp": {}, "op": {}, "svrp": {"tech_costs": [1, 2, 3]},
+    # hand-built CVRP-family instances carry no vehicle capacity: the env object supplies its generator's (default 1)
+    "cvrp": {"vc": 1.0}, "sdvrp": {"vc": 1.0}, "cvrptw": {"vc": 1.0},
+}
+_BY_NAME_DEFAULT = {"vc": 1.0}
+
+
+def env_by_name_ok(envn, cfg):
+    need = ENV_BY_NAME.get(envn)
+    return need is not None and all(cfg.get(k_, _BY_NAME_DEFAULT.get(k_)) == v for k_, v in need.items())
+
+
+def setup_dims(key, envn, n, base_cfg, B, tier="quick", by_name=True, shapes=True, sources=True, opts=True):
+    """Strategy of the OPTIONAL setup dimensions shared by the policy-level checks (a dict; absent key = the module's
+    frozen default, so cases recorded before these dimensions existed replay unchanged):
+        ecfg       config with drawn size-neutral options (env_cfgs; 1/2 of the cases), else the caller's base_cfg
+        src, lat   hand-built instances (inst_sources; CVRPTW hand-built instances are unscaled: ecfg.scale False)
+        env_shape  env object built for another size (env_shapes; 1/6 for ENV_SHAPE_FREE names)
+        env_via    "none" | "name": policy called with env=None / the env name (1/8 where env_by_name_ok)
+        opts       constructor switches (policy_opts)
+    Use resolve_setup(case, base_cfg) to get (cfg, make_batch kwargs)."""
+    import hypothesis.strategies as st
+
+    @st.composite
+    def pick(draw):
+        d = {}
+        cfg = base_cfg
+        if draw(st.booleans()):
+            cfg = draw(env_cfgs(envn, n, tier))
+            d["ecfg"] = cfg
+            if sources:
+                src = draw(inst_sources(envn, cfg, B))
+                if src["src"] != "gen":
+                    d.update(src)
+                    if envn == "cvrptw":
+                        d["ecfg"] = cfg = dict(cfg, scale=False)
+        if shapes and draw(st.integers(0, 5)) == 0:
+            sh = draw(env_shapes(envn, cfg))
+            if sh:
+                d["env_shape"] = sh
+        if by_name and "env_shape" not in d and env_by_name_ok(envn, cfg) and draw(st.integers(0, 7)) == 0:
+            d["env_via"] = draw(st.sampled_from(["none", "name"]))
+        if opts:
+            o = draw(policy_opts(key))
+            if o:
+                d["opts"] = o
+        return d
+    return pick()
+
+
+def resolve_setup(case, base_cfg):
+    """-> (cfg, kwargs for make_batch) of a case carrying setup_dims keys."""
+    cfg = case.get("ecfg") or base_cfg
+    kw = dict(src=case.get("src", "gen"), lat=case.get("lat"), env_shape=case.get("env_shape"),
+              env_via=case.get("env_via", "object"))
+    return cfg, kw
+
+
+def setup_events(ctx, case, envn, cfg):
+    """Class counters of the setup dimensions (generator measurement)."""
+    if case.get("ecfg"):
+        ctx.event("cfg:wide")
+        ctx.event(f"cfg:wide|{envn}")
+        if envn in ("fjsp", "jssp"):
+            ctx.event(f"cfg:{envn}|{'mask_no_ops' if cfg['mask_no_ops'] else 'wait_allowed'}|mas={cfg['mas']}")
+        if envn in ("cvrp", "sdvrp", "cvrptw") and cfg.get("vc", 1.0) != 1.0:
+            ctx.event("cfg:vehicle_capacity!=1")
+        if envn == "cvrptw":
+            ctx.event(f"cfg:cvrptw|{'scaled' if cfg['scale'] else 'unscaled'}")
+        if envn == "svrp":
+            ctx.event("cfg:svrp|tech_costs" + ("=default" if list(cfg["tech_costs"]) == [1, 2, 3] else "!=default"))
+        if envn == "op":
+            ctx.event(f"cfg:op|{cfg['prize_type']}")
+        if envn == "mtvrp":
+            ctx.event("cfg:mtvrp|speed" + ("=1" if cfg.get("speed", 1.0) == 1.0 else "!=1")
+                      + ("|unscaled_demand" if not cfg.get("scale_demand", True) else ""))
+    else:
+        ctx.event("cfg:frozen")
+    ctx.event(f"src:{case.get('src', 'gen')}")
+    if case.get("env_shape"):
+        ctx.event("env:built_for_another_size")
+        ctx.event(f"env:built_for_another_size|{envn}")
+    if case.get("env_via", "object") != "object":
+        ctx.event(f"env:given_as_{case['env_via']}")
+    if case.get("opts"):
+        ctx.event("ctor_switches")
+        for k_, v in sorted(case["opts"].items()):
+            ctx.event(f"ctor:{k_}={v}")
+
+
+class StartFn:
+    """A `select_start_nodes_fn(td, env, num_starts)` with known answers (documented hook of DecodingStrategy /
+    BeamSearch): for instance b the feasible non-depot first moves of ITS reset mask, rotated by `offset`, the first
+    num_starts of them (wrapping around when there are fewer: repeated starts), returned start-major (row j*B + b =
+    start j of instance b).  Records every call (batch size, env object, num_starts) and the tensor it returned."""
+
+    def __init__(self, offset, first):
+        self.offset, self.first = int(offset), int(first)
+        self.calls, self.out = [], None
+
+    def __call__(self, td, env, num_starts):
+        k = int(num_starts)
+        m = td["action_mask"]
+        B = m.shape[0]
+        m = m.reshape(B, -1)
+        self.calls.append((B, env, num_starts))
+        out = torch.zeros(k * B, dtype=torch.long)
+        for b in range(B):
+            feas = [a for a in range(self.first, m.shape[1]) if bool(m[b, a])] or [0]
+            o = self.offset % len(feas)
+            rot = feas[o:] + feas[:o]
+            for j in range(k):
+                out[j * B + b] = rot[j % len(rot)]
+        self.out = out.clone()
+        return out
+
+
 def to_double(td):
     td = td.clone()
     for k in list(td.keys()):
@@ -145,11 +407,33 @@ def to_double(td):
     return td
 
 
-def make_batch(env_name, cfg, B, seed, double=False):
+_DEFAULT_ENVS = {}
+
+
+def default_env(env_name):
+    """The env the policy builds when it is called with env=None / env=<name>: rl4co.envs.get_env(name) with every
+    constructor default (harness-side object of the same construction, cached per process)."""
+    if env_name not in _DEFAULT_ENVS:
+        from rl4co.envs import get_env
+        state = torch.get_rng_state()
+        _DEFAULT_ENVS[env_name] = get_env(env_name)
+        torch.set_rng_state(state)
+    return _DEFAULT_ENVS[env_name]
+
+
+def make_batch(env_name, cfg, B, seed, double=False, src="gen", lat=None, env_shape=None, env_via="object"):
+    """-> (env, instance, reset td).  Instances: generator-drawn (src "gen", torch seeded with `seed`) or hand-built
+    (src "lat" | "flt" | "tgt" with the drawn rows `lat`, through SPECS[env].instance).  env_shape: overrides of the
+    config used for the ENV OBJECT only (the instances keep their own size).  env_via "none" | "name": the env object
+    returned is the default-constructed one (what the policy builds itself when it is not handed an env object)."""
     spec = SPECS[env_name]
-    env = spec.env(cfg)
+    ecfg = dict(cfg, **env_shape) if env_shape else cfg
+    env = spec.env(ecfg) if env_via == "object" else default_env(env_name)
     state = torch.get_rng_state()
-    inst = spec.gen(cfg, B, seed)
+    if src == "gen" or lat is None:
+        inst = spec.gen(cfg, B, seed)
+    else:
+        inst = spec.instance({"env": env_name, "cfg": cfg, "B": B, "src": src, "seed": seed, "lat": lat})
     torch.set_rng_state(state)
     if double:
         inst = to_double(inst)
@@ -197,9 +481,86 @@ class DeterministicMatNetInit(nn.Module):
 
 
 # --------------------------------------------------------------------------- construction
-def _construct(key, env_name, embed_dim, norm, env=None):
+# constructor switches of AttentionModelPolicy (audit item 17); JSON-able values, translated by _am_kwargs
+OPT_KEYS = ("am", "am_pomo", "symnco")
+SDPA_VARIANTS = ("default", "simple_all", "simple_encoder", "simple_decoder", "decoder_str_simple", "decoder_str_default")
+
+
+def policy_opts(key):
+    """Strategy of constructor switches for the AttentionModelPolicy-based zoo keys (None = all defaults, 1/2):
+    mask_inner, linear_bias_decoder, out_bias_pointer_attn, check_nan, feedforward_hidden (ff), sdpa (which scaled
+    dot-product attention implementation the encoder / decoder use: torch's, or the library's own
+    scaled_dot_product_attention_simple handed over as `sdpa_fn` (deprecated alias, both sides), `sdpa_fn_encoder`,
+    `sdpa_fn_decoder` callables or the decoder's documented string form "simple" / "default"), and constructor-level
+    temperature / tanh_clipping (ctor_temperature, ctor_tanh; 0 = no clipping)."""
+    import hypothesis.strategies as st
+    if key not in OPT_KEYS:
+        return st.none()
+
+    @st.composite
+    def pick(draw):
+        if draw(st.booleans()):
+            return None
+        o = {}
+        if draw(st.integers(0, 2)) == 0:
+            o["mask_inner"] = False
+        if draw(st.integers(0, 2)) == 0:
+            o["linear_bias_decoder"] = True
+        if draw(st.integers(0, 2)) == 0:
+            o["out_bias_pointer_attn"] = True
+        if draw(st.integers(0, 3)) == 0:
+            o["check_nan"] = False
+        if draw(st.integers(0, 3)) == 0:
+            o["ff"] = draw(st.sampled_from([16, 48, 128]))
+        sd = draw(st.sampled_from(("default",) + SDPA_VARIANTS[1:] * 2))
+        if sd != "default":
+            o["sdpa"] = sd
+        if draw(st.integers(0, 3)) == 0:
+            o["ctor_temperature"] = draw(st.sampled_from([0.5, 2.0]))
+        if draw(st.integers(0, 3)) == 0:
+            o["ctor_tanh"] = draw(st.sampled_from([0.0, 5.0, 20.0]))
+        return o or None
+    return pick()
+
+
+def _am_kwargs(opts):
+    from rl4co.models.nn.attention import scaled_dot_product_attention_simple as simple
+    kw = {}
+    o = opts or {}
+    for k_ in ("mask_inner", "linear_bias_decoder", "out_bias_pointer_attn", "check_nan"):
+        if k_ in o:
+            kw[k_] = bool(o[k_])
+    if "ff" in o:
+        kw["feedforward_hidden"] = int(o["ff"])
+    sd = o.get("sdpa", "default")
+    if sd == "simple_all":
+        kw["sdpa_fn"] = simple
+    elif sd == "simple_encoder":
+        kw["sdpa_fn_encoder"] = simple
+    elif sd == "simple_decoder":
+        kw["sdpa_fn_decoder"] = simple
+    elif sd == "decoder_str_simple":
+        kw["sdpa_fn_decoder"] = "simple"
+    elif sd == "decoder_str_default":
+        kw["sdpa_fn_decoder"] = "default"
+    elif sd != "default":
+        raise KeyError(sd)
+    if "ctor_temperature" in o:
+        kw["temperature"] = float(o["ctor_temperature"])
+    if "ctor_tanh" in o:
+        kw["tanh_clipping"] = float(o["ctor_tanh"])
+    return kw
+
+
+def _construct(key, env_name, embed_dim, norm, env=None, opts=None):
     heads = 4
     ff = 2 * embed_dim
+    okw = {}
+    if opts and key not in ("mdam", "ptrnet"):
+        if key not in OPT_KEYS:
+            raise KeyError(f"constructor switches are not defined for zoo key {key}")
+        okw = _am_kwargs(opts)
+        ff = okw.pop("feedforward_hidden", ff)
     if key == "matnet_ffsp":
         from rl4co.models.zoo.matnet.policy import MultiStageFFSPPolicy
         p = MultiStageFFSPPolicy(stage_cnt=int(env.num_stage), embed_dim=embed_dim, num_heads=heads, num_encoder_layers=2,
@@ -209,29 +570,31 @@ def _construct(key, env_name, embed_dim, norm, env=None):
         return p
     if key == "mdam":
         from rl4co.models.zoo.mdam import MDAMPolicy
+        # (num_paths=1 is not constructible into a working policy on the pinned tree: UnboundLocalError in the decoder)
         return MDAMPolicy(env_name=env_name, embed_dim=embed_dim, num_encoder_layers=2, num_heads=heads,
-                          num_paths=MDAM_PATHS)
+                          num_paths=int((opts or {}).get("num_paths", MDAM_PATHS)))
     if key == "am":
         from rl4co.models import AttentionModelPolicy
         return AttentionModelPolicy(env_name=env_name, embed_dim=embed_dim, num_encoder_layers=2, num_heads=heads,
-                                    feedforward_hidden=ff, normalization=norm or "batch")
+                                    feedforward_hidden=ff, normalization=norm or "batch", **okw)
     if key == "am_pomo":
         # rl4co.models.zoo.pomo.model.POMO defaults: 6 layers, instance norm, no graph context
         from rl4co.models import AttentionModelPolicy
         return AttentionModelPolicy(env_name=env_name, embed_dim=embed_dim, num_encoder_layers=6, num_heads=heads,
-                                    feedforward_hidden=ff, normalization=norm or "instance", use_graph_context=False)
+                                    feedforward_hidden=ff, normalization=norm or "instance", use_graph_context=False, **okw)
     if key == "symnco":
         from rl4co.models.zoo.symnco import SymNCOPolicy
         return SymNCOPolicy(env_name=env_name, embed_dim=embed_dim, num_encoder_layers=2, num_heads=heads,
-                            feedforward_hidden=ff, normalization=norm or "batch")
+                            feedforward_hidden=ff, normalization=norm or "batch", **okw)
     if key == "ham":
         from rl4co.models.zoo.ham import HeterogeneousAttentionModelPolicy
         return HeterogeneousAttentionModelPolicy(env_name=env_name, embed_dim=embed_dim, num_encoder_layers=2,
                                                  num_heads=heads, feedforward_hidden=ff, normalization=norm or "batch")
-    if key == "matnet":
+    if key in ("matnet", "matnet_ctx"):
         from rl4co.models.zoo.matnet import MatNetPolicy
+        mkw = dict(use_graph_context=True, bias=True) if key == "matnet_ctx" else {}
         p = MatNetPolicy(env_name=env_name, embed_dim=embed_dim, num_encoder_layers=2, num_heads=heads,
-                         normalization=norm or "instance")
+                         normalization=norm or "instance", **mkw)
         p.encoder.init_embedding = DeterministicMatNetInit(embed_dim)
         return p
     if key == "polynet":
@@ -251,8 +614,48 @@ def _construct(key, env_name, embed_dim, norm, env=None):
                                     feedforward_hidden=ff, normalization=norm or "batch", moe_kwargs=moe)
     if key == "ptrnet":
         from rl4co.models import PointerNetworkPolicy
-        return PointerNetworkPolicy(env_name=env_name, embed_dim=embed_dim, hidden_dim=embed_dim)
+        o = opts or {}
+        pkw = {}
+        if "ptr_tanh" in o:      # pointer tanh clipping of the constructor (0 = none; default 10)
+            pkw["tanh_clipping"] = float(o["ptr_tanh"])
+        if "ptr_mask_inner" in o:  # mask the glimpse attention as well (default True)
+            pkw["mask_inner"] = bool(o["ptr_mask_inner"])
+        return PointerNetworkPolicy(env_name=env_name, embed_dim=embed_dim, hidden_dim=embed_dim, **pkw)
+    if key == "polynet_matnet":
+        from rl4co.models.zoo.polynet.policy import PolyNetPolicy
+        p = PolyNetPolicy(k=POLYNET_K, encoder_type="MatNet", env_name=env_name, embed_dim=embed_dim, num_encoder_layers=2,
+                          num_heads=heads, feedforward_hidden=ff, normalization=norm or "instance")
+        p.encoder.init_embedding = DeterministicMatNetInit(embed_dim)
+        return p
+    if key == "l2d_stepwise":
+        from rl4co.models.zoo.l2d import L2DPolicy
+        return L2DPolicy(env_name=env_name, embed_dim=embed_dim, num_encoder_layers=2, stepwise_encoding=True)
+    if key in ("mvmoe_k1", "mvmoe_kall", "mvmoe_enc"):
+        from rl4co.models import AttentionModelPolicy
+        ne, kk = {"mvmoe_k1": (4, 1), "mvmoe_kall": (3, 3), "mvmoe_enc": (4, 2)}[key]
+        enc = {"hidden_act": "ReLU", "num_experts": ne, "k": kk, "noisy_gating": True}
+        dec = None if key == "mvmoe_enc" else {"light_version": False, "num_experts": ne, "k": kk, "noisy_gating": True}
+        return AttentionModelPolicy(env_name=env_name, embed_dim=embed_dim, num_encoder_layers=2, num_heads=heads,
+                                    feedforward_hidden=ff, normalization=norm or "batch",
+                                    moe_kwargs={"encoder": enc, "decoder": dec})
+    if key == "nar":
+        from rl4co.models.common.constructive.nonautoregressive import NonAutoregressivePolicy
+        return NonAutoregressivePolicy(StubHeatmapEncoder(embed_dim), env_name=env_name)
     raise KeyError(key)
+
+
+class StubHeatmapEncoder(nn.Module):
+    """Harness stub for NonAutoregressivePolicy (the bundled heat-map encoders need torch_geometric): per-node features
+    tanh(W locs), heat-map logits h_i^T M h_j  ->  ([B,N,N] heat-map logits, [B,N,E] init embeddings)."""
+
+    def __init__(self, embed_dim):
+        super().__init__()
+        self.lin = nn.Linear(2, embed_dim)
+        self.mix = nn.Linear(embed_dim, embed_dim, bias=False)
+
+    def forward(self, td):
+        h = torch.tanh(self.lin(td["locs"]))
+        return torch.einsum("bie,bje->bij", self.mix(h), h), h
 
 
 def has_batchnorm(policy):
@@ -262,9 +665,10 @@ def has_batchnorm(policy):
 _CACHE = OrderedDict()
 
 
-def build_policy(policy_key, env_name, env=None, seed=0, spread=1.5, embed_dim=32, double=False, norm=None):
+def build_policy(policy_key, env_name, env=None, seed=0, spread=1.5, embed_dim=32, double=False, norm=None, opts=None):
+    import json
     ck = (policy_key, env_name, int(seed), float(spread), int(embed_dim), bool(double), norm,
-          int(env.num_stage) if policy_key == "matnet_ffsp" else None)
+          int(env.num_stage) if policy_key == "matnet_ffsp" else None, json.dumps(opts, sort_keys=True) if opts else None)
     if ck in _CACHE:
         _CACHE.move_to_end(ck)
         p = _CACHE[ck]
@@ -273,7 +677,7 @@ def build_policy(policy_key, env_name, env=None, seed=0, spread=1.5, embed_dim=3
     state = torch.get_rng_state()
     try:
         torch.manual_seed(int(seed))
-        p = _construct(policy_key, env_name, embed_dim, norm, env)
+        p = _construct(policy_key, env_name, embed_dim, norm, env, opts)
         with torch.no_grad():
             for name, prm in p.named_parameters():
                 if prm.requires_grad and prm.dim() >= 2:
